@@ -838,6 +838,53 @@ def generate(ctx, n_random, reserved, macros):
     return mods
 
 
+def gate_family():
+    """Seed-independent: every comparison operator between an operand that can be negative and one that needs
+    uint64, at every expression position.  The 64-bit gate of the front end has to reject each of them (the back end
+    has no common C++ type for the comparison); whichever is accepted has to compile like any other module."""
+    mods = []
+    head = '[$default byte_order: "LittleEndian"]\nstruct Foo:\n  0 [+8]  Int  sa\n  8 [+8]  UInt  ub\n  16 [+1]  Int  sc\n  17 [+1]  UInt  ud\n'
+    base_fields = [("sa", "int"), ("ub", "uint"), ("sc", "int"), ("ud", "uint")]
+    pairs = [("sa", "ub"), ("ub", "sa"), ("sc", "ub"), ("ub", "sc"), ("sc - 1", "ub"), ("ub + 0", "sa"), ("ud", "ub"), ("sa", "sc")]
+    for op in ("==", "!=", "<", "<=", ">", ">="):
+        for a, b in pairs:
+            e = "%s %s %s" % (a, op, b)
+            for pos in ("let", "if", "field-requires", "struct-requires", "choice-condition", "array-length"):
+                if (a[0] == "s") == (b[0] == "s") and (op != "<" or pos not in ("let", "if")):
+                    continue        # same-sign controls are accepted and compiled: a handful is enough
+                extra_fields = []
+                if pos == "let":
+                    text = head + "  let vv = %s\n" % e
+                    extra_fields = [("vv", "vbool")]
+                elif pos == "if":
+                    text = head + "  if %s:\n    18 [+1]  UInt  ce\n" % e
+                    extra_fields = [("ce", "uint")]
+                elif pos == "field-requires":
+                    text = head + "  18 [+1]  UInt  rq\n    [requires: this < 200 && %s]\n" % e
+                    extra_fields = [("rq", "uint")]
+                elif pos == "struct-requires":
+                    text = head.replace("struct Foo:\n", "struct Foo:\n  [requires: %s]\n" % e)
+                elif pos == "choice-condition":
+                    text = head + "  let vv = (%s) ? 1 : 2\n" % e
+                    extra_fields = [("vv", "vint")]
+                else:
+                    text = head + "  18 [+(%s) ? 1 : 2]  UInt:8[]  ar\n" % e
+                    extra_fields = [("ar", "array")]
+                fs = base_fields + extra_fields
+                mods.append(dict(
+                    files={"m.emb": text}, main="m.emb", namespace=["emboss_generated_code"],
+                    features=["gate-family:%s:%s" % (pos, "mixed" if (a[0] == "s") != (b[0] == "s") else "same-sign")],
+                    scopes=[dict(kind="class", where="Foo", name="Foo", units="bytes",
+                                 fields=[dict(name=n, kind="virtual" if c.startswith("v") else "physical", requires=(n == "rq")) for n, c in fs],
+                                 params=[], enums=[]),
+                            dict(kind="ns", where="Foo::", validated=["rq"] if pos == "field-requires" else [], structs=[], enums=[])],
+                    structs=[dict(name="Foo", cpp=["Foo"], params=[], size=19 if extra_fields and extra_fields[0][1] in ("uint",) else 18,
+                                  fields=[dict(name=n, cls=c) for n, c in fs if c != "array"], nested=False,
+                                  dynamic=(pos == "array-length"))],
+                    enums=[]))
+    return mods
+
+
 def corpus_modules():
     return [json.load(open(p)) for p in sorted(glob.glob(os.path.join(fw.VERIF, "corpus", "C07", "*.json")))]
 
@@ -941,5 +988,5 @@ def _run_check(ctx):
     macros = gen_names.system_macros(gen_names.STANDARDS)
     ctx.extra["system_macros_not_reserved"] = len([m for m in macros if m not in reserved and
                                                     (gen_names.SHOUTY_RE.match(m) or gen_names.SNAKE_RE.match(m))])
-    mods = corpus_modules() + generate(ctx, 150 if ctx.thorough() else 10, reserved, macros)
+    mods = corpus_modules() + gate_family() + generate(ctx, 150 if ctx.thorough() else 10, reserved, macros)
     run_modules(ctx, mods)
